@@ -14,13 +14,17 @@ func checkC03(c *Ctx) {
 		"E8: the complete decision table of WorkerGroupConf.CanContinueOnError (recorded? continue? abort?) for every combination of error kind and option, extracted by abstract interpretation and compared with the table of the property (nil ≻ panic ≻ skip ≻ EOF ≻ excluded/context ≻ other)",
 		"N2: every WorkerGroupConf option is consumed", "F3: every branch of ParsePanic marks the error with ErrRecoveredPanic",
 		"F4: the user function runs only behind WithRecover in the three worker-group constructs", "F6: each construct wires the cancel function it created into the configuration's abort hook before starting workers",
-		"F7: the default error handler shared by the workers is mutex-wrapped", "F8: the constructs return / attach the configured error resolver", "N4: no abort handler tests for an error its worker can never return")
+		"F7: the default error handler shared by the workers is mutex-wrapped", "F8: the constructs return / attach the configured error resolver", "N4: no abort handler tests for an error its worker can never return",
+		"P2/P2c: the output pipe is closed (exhaustion reported, errors resolved) only after the wait group of all workers drained, and that wait does not run under the abort-cancelled context")
 	c.R.NotCov = append(c.R.NotCov, "exactly-once processing under continue mode (see C01 for the structural part)", "the numeric bound 'at most #workers items after the first failure'")
 	ruleE8(c)
 	ruleN2(c, []FieldID{{Pkg: "fun", Type: "WorkerGroupConf"}}, 7)
 	ruleF3(c)
 	ruleF467(c)
 	ruleN4(c)
+	// "nothing lost": failures of in-flight items are recorded before the result is resolved only
+	// if the output is closed / the waiter returns after every worker finished (P2 incl. P2c)
+	ruleP2(c, map[string]bool{"fun": true}, 8)
 }
 
 func ruleE8(c *Ctx) {
